@@ -69,6 +69,7 @@ def bounds(tier):
 
 
 def _bounds(tier):
+    n, nc, m = _depths(tier)
     return {"shapes": "all sequences of length 1..%d over %d line shapes, plus length %d over the %d-shape core"
                       % (n, len(shapes(0)), nc, len(CORE_IDX)),
             "termination_modes": ["every line ends in \\n", "every line but the last (last line non-empty)",
